@@ -123,7 +123,7 @@ fn check_inject(ctx: &mut Ctx, b: B, sql: &str, values: &[Value], inline: Option
     if let Some(want) = inline {
         if got.as_deref() != Some(want) {
             // SQLite literals do not honour backslash escapes but the tokenizer does
-            let cls = if b == B::Sqlite && sql.contains("\\'") { Some("C11.sqlite_backslash_before_quote") }
+            let cls = if b == B::Sqlite && (sql.contains("\\'") || sql.contains("\\\"") || sql.contains("\\`")) { Some("C11.sqlite_backslash_before_quote") }
                 // a literal placeholder mark in the statement text (from a doubled mark) cannot be told from a placeholder
                 else if sql_has_literal_mark(b, sql, values.len()) { Some("C11.literal_mark_in_built_sql") }
                 else if b == B::Postgres && glued_placeholder(sql) { Some("C11.pg_placeholder_glued_to_word") } else { None };
